@@ -2,3 +2,116 @@
 #![allow(dead_code, unused_imports)]
 use super::*;
 
+
+use crate::device::MockDevice;
+use crate::net::MockSocket;
+use crate::util::MockTimeSource;
+
+pub struct PeerDump {
+    pub addr: SocketAddr,
+    pub node_id: NodeId,
+    pub alg: &'static str,
+    pub timeout: Time,
+    pub peer_timeout: u16,
+    pub has_init: bool,
+    pub addrs: Vec<SocketAddr>,
+}
+
+impl<P: Protocol> GenericCloud<MockDevice, P, MockSocket, MockTimeSource> {
+    pub fn v_socket(&mut self) -> &mut MockSocket {
+        &mut self.socket
+    }
+    pub fn v_device(&mut self) -> &mut MockDevice {
+        &mut self.device
+    }
+    pub fn v_socket_event(&mut self) {
+        let mut buffer = MsgBuffer::new(SPACE_BEFORE);
+        self.handle_socket_event(&mut buffer);
+    }
+    pub fn v_device_event(&mut self) {
+        let mut buffer = MsgBuffer::new(SPACE_BEFORE);
+        self.handle_device_event(&mut buffer);
+    }
+    pub fn v_housekeep(&mut self) -> bool {
+        self.housekeep().is_ok()
+    }
+    pub fn v_node_id(&self) -> NodeId {
+        self.node_id
+    }
+    pub fn v_peers(&self) -> Vec<PeerDump> {
+        let mut v: Vec<PeerDump> = self
+            .peers
+            .iter()
+            .map(|(a, d)| PeerDump {
+                addr: *a,
+                node_id: d.node_id,
+                alg: d.crypto.algorithm_name(),
+                timeout: d.timeout,
+                peer_timeout: d.peer_timeout,
+                has_init: d.crypto.has_init(),
+                addrs: d.addrs.iter().copied().collect(),
+            })
+            .collect();
+        v.sort_by_key(|p| p.addr);
+        v
+    }
+    pub fn v_pending(&self) -> Vec<(SocketAddr, crate::crypto::verif::PcDump)> {
+        let mut v: Vec<(SocketAddr, crate::crypto::verif::PcDump)> =
+            self.pending_inits.iter().map(|(a, c)| (*a, crate::crypto::verif::pc_dump(c))).collect();
+        v.sort_by_key(|p| p.0);
+        v
+    }
+    pub fn v_peer_crypto(&self, a: &SocketAddr) -> Option<crate::crypto::verif::PcDump> {
+        self.peers.get(a).map(|d| crate::crypto::verif::pc_dump(&d.crypto))
+    }
+    pub fn v_own(&self) -> Vec<SocketAddr> {
+        let mut v: Vec<SocketAddr> = self.own_addresses.iter().copied().collect();
+        v.sort();
+        v
+    }
+    pub fn v_table(&self) -> &ClaimTable<MockTimeSource> {
+        &self.table
+    }
+    pub fn v_sched(&self) -> (Time, Time) {
+        (self.next_peers, self.next_own_address_reset)
+    }
+    pub fn v_counters(&self) -> (usize, usize) {
+        // totals over all statistics periods
+        (
+            self.traffic.dropped.out_packets + self.traffic.dropped.out_packets_total,
+            self.traffic.dropped.in_packets + self.traffic.dropped.in_packets_total,
+        )
+    }
+    pub fn v_replace_crypto(&mut self, c: Crypto) {
+        self.crypto = c;
+    }
+    pub fn v_add_reconnect(&mut self, addrs: Vec<SocketAddr>) {
+        let now = MockTimeSource::now();
+        self.reconnect_peers.push(ReconnectEntry {
+            address: None,
+            tries: 0,
+            timeout: 1,
+            resolved: addrs.into_iter().collect(),
+            next: now,
+            final_timeout: None,
+        })
+    }
+    pub fn v_reconnect(&self) -> Vec<(u16, u16, Time)> {
+        self.reconnect_peers.iter().map(|e| (e.tries, e.timeout, e.next)).collect()
+    }
+    /// insert an established, unencrypted fake peer advertising `peer_timeout` (interval tests)
+    pub fn v_fake_peer(&mut self, addr: SocketAddr, peer_timeout: u16) {
+        let now = MockTimeSource::now();
+        self.peers.insert(
+            addr,
+            PeerData {
+                addrs: smallvec![addr],
+                last_seen: now,
+                timeout: now + 100000,
+                peer_timeout,
+                node_id: [9; 16],
+                crypto: crate::crypto::verif::pc_plain([9; 16]),
+            },
+        );
+    }
+}
